@@ -18,6 +18,9 @@ def pick_configs(rnd, fam_small):
         chosen.add((rate,) + rnd.choice(partial))
         chosen.add((rate,) + rnd.choice(multi))
         chosen.add((rate,) + rnd.choice(cfgs))
+        # most chunk-loop iterations within the bound
+        chosen.add((rate, 7, 1) if rate == "high" else (rate, 1, 7))
+        chosen.add((rate, 6, 1) if rate == "high" else (rate, 1, 6))
     return chosen
 
 
@@ -72,6 +75,13 @@ def plan13(ctx):
                           f"real {R}RateEncoder<SpecEngine> ({m['k']},{m['r']}): enc(a) ^ enc(b) == enc(a^b) for fully symbolic a, b",
                           encodes=enc, bounds=f"2-byte shards, config ({m['k']},{m['r']}), unwind 66", timeout=1500, mem_gb=8,
                           symbolic="two full data sets (2*k 16-bit symbols)", tiers=("quick", "thorough") if q else ("thorough",)))
+    # the real NoSimd engine's own additivity (shared with C15): a data-dependent shortcut in a butterfly shows here
+    from . import c15 as c15mod
+    cfam = families.c15_family()
+    q15 = c15mod.select(rnd, cfam)
+    for m in cfam:
+        if m["kind"] == "additive":
+            hs.append(c15mod.mk(m, "C13", q15))
     return Plan(hs,
                 assumptions=["SpecEngine contract (linear by construction; garbage outputs are fresh nondeterministic values, so any reliance on them breaks additivity)",
                              "homogeneity (scaling by a field constant) follows from C02's basis form: recovery = G*x with constant G"],
